@@ -5,6 +5,7 @@
 //!   samp <seed> <n>       sampled structures up to 256 indices, mutated signers     -> `A` lines + JSON `v1` lines
 //!   tx   <seed> <n>       construct::* / send::* outputs, sponsored v1, update instructions -> JSON
 //!   pert <seed> <n>       perturbation stream on the implementation alone             -> JSON
+//!   wire <seed> <n>       byte-level mutants of the signature set of serialized block items (see wire.rs) -> JSON
 //!   upd  <seed> <n>       AuthorizationsV0/V1, find_authorized_keys, update signing    -> JSON
 //!
 //! `A` line:  A <T>;<ci>:<t>:<ki>,<ki>..|..;<ci>:<ki>.<bit>,..|..;<result>
@@ -36,6 +37,8 @@ use serde_json::{json, Value};
 use sha2::{Digest, Sha256};
 use std::collections::{BTreeMap, BTreeSet};
 use std::convert::TryFrom;
+
+mod wire;
 
 type SigMap = BTreeMap<CredentialIndex, BTreeMap<KeyIndex, Signature>>;
 
@@ -907,6 +910,7 @@ fn main() {
         "tx" => txmode(seed, n),
         "pert" => pert(seed, n),
         "upd" => upd(seed, n),
+        "wire" => wire::wire(seed, n),
         _ => panic!("mode"),
     }
 }
